@@ -96,6 +96,19 @@ def run_case(desc):
             stop = "too-many-cycles"
             break
         kw = dict(e.kwargs(c.ctx))
+        if e.domain is not None and cyc > 0:
+            # the documented / third-party domain of the strategy's model (e.g. GaussianNB on coinciding labelled rows) is
+            # judged on the labels of the current cycle: the loop ends where it is left
+            c.lab = ~np.isnan(y)
+            c.n_labeled = int(c.lab.sum())
+            c.n_classes_obs = len(set(y[c.lab].tolist())) if c.kind != "reg" else None
+            try:
+                left = e.domain(c)
+            except Exception:
+                left = None
+            if left:
+                stop = "left-domain"
+                break
         unl = set(np.flatnonzero(np.isnan(y)).tolist())
         steps.begin()
         try:
